@@ -3,6 +3,7 @@ EXTENDS Eval
 FnV(n) == [k |-> "fn", name |-> n]
 ObjV(n) == [k |-> "obj", name |-> n]
 TupV(s) == [k |-> "tup", items |-> s]
+WordV(w) == [k |-> "word", w |-> w]
 Common == [f |-> FnV("f"), g |-> FnV("g"),
            t |-> TupV(<< IntV(10), IntV(20), FracV(5, 2) >>), o |-> ObjV("o1")]
 Envs == <<
@@ -12,6 +13,8 @@ Envs == <<
   [x |-> IntV(0),      y |-> IntV(1),      z |-> IntV(-2)]    @@ Common,
   [x |-> IntV(3),      y |-> IntV(0),      z |-> FracV(1, 2)] @@ Common,
   [x |-> IntV(1),      y |-> IntV(-1),     z |-> IntV(0)]     @@ Common,
-  [x |-> IntV(-2),     y |-> FracV(5, 2),  z |-> IntV(2)]     @@ Common
+  [x |-> IntV(-2),     y |-> FracV(5, 2),  z |-> IntV(2)]     @@ Common,
+  \* non-commuting operands: products must keep their order
+  [x |-> WordV(<< "a" >>), y |-> WordV(<< "b" >>), z |-> WordV(<< "c" >>)] @@ Common
 >>
 =============================================================================
